@@ -283,8 +283,53 @@ def patch_shuffled(on=True):
     PS.shuffled = det_shuffled if on else _ORIG_SHUFFLED
 
 
+LOW_RANKS = 'A2345678'
+
+
+def _rigged_shuffle(cfg):
+    """Seeded shuffle followed by a stable re-ordering that makes the
+    situations the award properties care about frequent (qualifying lows,
+    ties, paired boards).  Only the order of the deck changes."""
+    rig = cfg.get('rig')
+
+    def f(x):
+        random.shuffle(x)
+        if not rig:
+            return
+        cards = list(x)
+        if rig == 'low':
+            first = [c for c in cards if str(c.rank.value) in LOW_RANKS]
+        elif rig == 'fewranks':
+            ranks = sorted({str(c.rank.value) for c in cards})
+            r = random.Random(cfg['deck_seed'])
+            keep = set(r.sample(ranks, min(4, len(ranks))))
+            first = [c for c in cards if str(c.rank.value) in keep]
+        elif rig == 'suited':
+            r = random.Random(cfg['deck_seed'])
+            suit = r.choice('cdhs')
+            first = [c for c in cards if str(c.suit.value) == suit]
+        else:
+            first = []
+        rest = [c for c in cards if c not in first]
+        x.clear()
+        x.extend(first + rest)
+
+    return f
+
+
 def build_state(cfg, mask=None, deck_seed=None):
     """Create the state a config describes (may raise what the engine does)."""
+    if cfg.get('rig') and hasattr(PS, 'shuffle'):
+        old = PS.shuffle
+        PS.shuffle = _rigged_shuffle(cfg)
+        try:
+            return _build_state(cfg, mask, deck_seed)
+        finally:
+            PS.shuffle = old
+    return _build_state(cfg, mask, deck_seed)
+
+
+def _build_state(cfg, mask=None, deck_seed=None):
     autos = mask_to_autos(cfg['autos'] if mask is None else mask)
     mode = Mode.TOURNAMENT if cfg['mode'] == 'T' else Mode.CASH_GAME
     antes = [chip(cfg, v) for v in cfg['antes']]
@@ -805,6 +850,24 @@ class Interp:
         s = self.state
         return sum(s.statuses) >= 2
 
+    def _tables_a_hand(self, i, shown):
+        """Known finding F1 family: at the final showdown the cards a player
+        does not table are forgotten; a partial show is generated only if the
+        tabled cards still make a hand (before the final street the engine
+        keeps the face-down cards, so any subset is fine)."""
+        s = self.state
+        if s.street is not s.streets[-1]:
+            return True
+        for j in s.board_indices:
+            board = tuple(s.get_board_cards(j))
+            for ht in s.hand_types:
+                try:
+                    if ht.from_game_or_none(shown, board) is not None:
+                        return True
+                except Exception:  # noqa: BLE001
+                    pass
+        return False
+
     def _args_show(self):
         s = self.state
         a = self.tape.next()
@@ -838,8 +901,10 @@ class Interp:
         if m == 3:
             if s.mode == Mode.CASH_GAME and len(hole) > 1:
                 k = 1 + (a // 6) % (len(hole) - 1)
-                if s.can_show_or_muck_hole_cards(tuple(hole[:k])):
+                if s.can_show_or_muck_hole_cards(tuple(hole[:k])) \
+                        and self._tables_a_hand(i, hole[:k]):
                     return (tuple(hole[:k]),)
+                self._exclude('partial_show_tabling_no_hand')
             return (True,)
         if m == 4:
             if self.muck_allowed():
